@@ -359,7 +359,11 @@ def run_case(spec, want_cmds=True):
     conns = {(c["out"], c["in"]): c for c in spec["conns"]}
     ts_max, eps = spec["ts_max"], spec["eps"]
     ts_max32 = onp.float32(ts_max)
-    g = generate_graphs(nodes, ts_max, rng=jax.random.PRNGKey(spec["seed"]), num_episodes=eps)
+    try:
+        g = generate_graphs(nodes, ts_max, rng=jax.random.PRNGKey(spec["seed"]), num_episodes=eps)
+    except Exception as ex:  # the implementation raised on a valid configuration
+        out["impl_error"] = f"generate_graphs raised {type(ex).__name__}: {str(ex)[:300]}"
+        return out
     G = _np_graph(g)
     m = Mon(spec, "generate")
     if set(G[0]) != set(nodes) or set(G[1]) != set(conns):
@@ -389,8 +393,8 @@ def run_case(spec, want_cmds=True):
         m = Mon(spec, where)
         if var["kind"] == "ragged":
             # existing graph = padded stack (Graph.stack pads with -1) of single episodes generated with different horizons
-            parts = []
-            for j, tm in enumerate(var["ts_maxs"]):
+            parts = [g[0]]
+            for j, tm in enumerate(var["ts_maxs"][1:]):
                 gj = generate_graphs(nodes, tm, rng=jax.random.PRNGKey(spec["seed"] + 17 + j), num_episodes=1)
                 parts.append(gj[0])
             base = Graph.stack(parts)
@@ -400,7 +404,11 @@ def run_case(spec, want_cmds=True):
         if var["kind"] == "single":
             sub = sub[var.get("episode", 0)]
         single = var["kind"] == "single"
-        aug = augment_graphs(sub, nodes, rng=jax.random.PRNGKey(var["seed"]))
+        try:
+            aug = augment_graphs(sub, nodes, rng=jax.random.PRNGKey(var["seed"]))
+        except Exception as ex:
+            out["impl_error"] = f"{where}: augment_graphs raised {type(ex).__name__}: {str(ex)[:300]}"
+            return out
         S, A = _np_graph(sub), _np_graph(aug)
         # existing vertices / edges are returned unchanged; exactly the missing keys are added
         if set(A[0]) != set(S[0]) | set(nodes):
@@ -429,10 +437,10 @@ def run_case(spec, want_cmds=True):
             for k in AE:
                 if k not in SE and k in conns and k[0] in AV and k[1] in AV:
                     check_edge(m, k, AE[k], AV[k[0]], AV[k[1]], conns[k]["skip"], conns[k]["comm"], tmx)
-            if var["kind"] != "ragged" or True:
-                check_acyclic(m, AV, AE)
+            check_acyclic(m, AV, AE)
             merge(m)
             if ep == 0 and want_cmds:
                 out["cmds"] += _cmds_for_episode(spec, AV, AE, tmx, phases, only_nodes=set(AV) - set(SV), only_edges=set(AE) - set(SE), limit=4)
     out["feats"] = sorted(k for k, v in out["stats"].items() if v)
     return out
+
